@@ -161,6 +161,9 @@ func allocBytes() uint64 {
 
 // c15Drive runs the reader for format f over src to the first error (or a call budget).
 func c15Drive(f int, src io.Reader, streamLen int, zero bool, ngopts pcapgo.NgReaderOptions) (res c15Res) {
+	if c15Ctx != nil {
+		c15Ctx.Step() // one reader over one stream is the unit of work the CPU budget applies to
+	}
 	budget := streamLen/4 + 16
 	res.pi = vlib.Guard(func() {
 		type rd interface {
@@ -303,7 +306,11 @@ func c15Fixtures() [][2]any {
 	return out
 }
 
+// c15Ctx is the context of the running phase (one phase per child process).
+var c15Ctx *vlib.Ctx
+
 func c15Hostile(c *vlib.Ctx) {
+	c15Ctx = c
 	// a header may legitimately declare a snap length of gigabytes and the readers size buffers by it: the heap watchdog is
 	// replaced here by the per-call allocation monitor, which scales with the declared snap length
 	c.SetBudget(30, 1<<44)
@@ -509,6 +516,7 @@ func c15Same(a, b c15Res) (bool, string) {
 }
 
 func c15Chunking(c *vlib.Ctx) {
+	c15Ctx = c
 	c.SetBudget(30, 1<<44)
 	n := c.Pick(500, 10000)
 	for i := 0; i < n; i++ {
@@ -531,6 +539,11 @@ func c15Chunking(c *vlib.Ctx) {
 			what = "corrupted"
 		}
 		zero := r.Bool()
+		if f == fmtClassic && len(stream) >= 20 && (binary.LittleEndian.Uint32(stream[16:]) > 64<<20 && binary.BigEndian.Uint32(stream[16:]) > 64<<20) {
+			// a corrupted snap length of gigabytes: the zero-copy reader sizes its reusable buffer by it, which the property
+			// allows ("plus the declared snap length") - eight readers zeroing gigabytes each only measure memset
+			zero = false
+		}
 		ref := c15Drive(f, bytes.NewReader(stream), len(stream), zero, pcapgo.NgReaderOptions{})
 		if !c15Judge(c, f, ref, stream, what, false) {
 			c.End()
@@ -604,6 +617,7 @@ func (f *failAt) Read(p []byte) (int, error) {
 }
 
 func c15Faults(c *vlib.Ctx) {
+	c15Ctx = c
 	n := c.Pick(60, 1200)
 	for i := 0; i < n; i++ {
 		if !c.Begin(i) {
